@@ -450,6 +450,20 @@ fn e2e(repo: &Repo, bin: &str, flag: &[&str], expect: &BTreeSet<String>) -> Opti
     if (part.rc == 1) != failed {
         return Some(format!("exit status {} under `{}` with failed={failed}", part.rc, flag.join(" ")));
     }
+    // the same restriction started in a sub-directory of the repository: the changed files below it
+    if let Some(d) = want.iter().filter_map(|p| p.split_once('/').map(|(d, _)| d.to_string())).find(|d| repo.dir.join(d).is_dir()) {
+        let sub = Repo { dir: repo.dir.join(&d) };
+        let mut args: Vec<&str> = vec!["--config", "../.sloc-guard.toml"];
+        args.extend_from_slice(flag);
+        let below = run_check(&sub, bin, &args);
+        if below.rc >= 0 && below.rc != 2 {
+            let want_below: BTreeSet<String> = want.iter().filter_map(|p| p.strip_prefix(&format!("{d}/")).map(str::to_string)).collect();
+            let got_below: BTreeSet<String> = below.content.keys().cloned().collect();
+            if got_below != want_below {
+                return Some(format!("`check {}` started in {d}/ evaluates {got_below:?}; the changed files below {d}/ are {want_below:?}", flag.join(" ")));
+            }
+        }
+    }
     None
 }
 
